@@ -5,9 +5,12 @@ package handshake
 // process. All identifiers are prefixed hsg.
 
 import (
+	"crypto/sha256"
 	"encoding/hex"
 	"errors"
 	"fmt"
+	"github.com/slackhq/nebula/cert/p256"
+	"google.golang.org/protobuf/proto"
 	"net/netip"
 	"sync"
 	"time"
@@ -179,6 +182,34 @@ func hsgZooFor(curve cert.Curve) *hsgZoo {
 	add("U", hsgUntrusted, both)
 	add("X", hsgExpired, both)
 	add("K", hsgBlocklisted, both)
+	if curve == cert.Curve_P256 {
+		// K2: the honest pool blocklists the OTHER encoding of this certificate's ECDSA signature (r, N-s):
+		// the fingerprint is computed here, from the re-encoded certificate bytes, not by the code under
+		// test. Blocklisting either form blocks the certificate, so K2 presenting its own form is refused.
+		k2 := add("K2", hsgMalicious, []cert.Version{cert.Version1})
+		k2.kind, k2.acceptable = hsgBlocklisted, false
+		c := k2.certs[cert.Version1]
+		delete(z.okFP, hsgFP(c))
+		raw := &cert.RawNebulaCertificate{}
+		b, err := c.Marshal()
+		if err != nil {
+			panic(err)
+		}
+		if err := proto.Unmarshal(b, raw); err != nil {
+			panic(err)
+		}
+		sw, err := p256.Swap(raw.Signature)
+		if err != nil {
+			panic(err)
+		}
+		raw.Signature = sw
+		tb, err := proto.Marshal(raw)
+		if err != nil {
+			panic(err)
+		}
+		sum := sha256.Sum256(tb)
+		z.pool.BlocklistFingerprint(hex.EncodeToString(sum[:]))
+	}
 
 	// key-mismatch family: the certificate presented belongs to the honest identity A
 	stolen := &hsgIdent{idx: len(z.idents), name: "stolenA", kind: hsgStolenCert, certs: a.certs, body: a.body, adversary: true, victim: a}
